@@ -12,15 +12,12 @@ def dump(repo):
             p = bitcoin.params
             cp = bitcoin.core.coreparams
             assert p is cp, 'SelectParams must leave bitcoin.params and bitcoin.core.coreparams identical'
-            rows.append('''  { name := %s, messageStart := %s, defaultPort := %d, rpcPort := %d,
+            rows.append('''  { name := %s, messageStart := %s,
     pubkeyAddr := %d, scriptAddr := %d, secretKey := %d, bech32Hrp := %s,
-    maxMoney := %d, powLimit := %d,
-    subsidyHalvingInterval := %d,
-    genesisHash := "%s" }''' % (
-                _s(p.NAME), list(p.MESSAGE_START), p.DEFAULT_PORT, p.RPC_PORT,
+    maxMoney := %d, powLimit := %d }''' % (
+                _s(p.NAME), list(p.MESSAGE_START),
                 p.BASE58_PREFIXES['PUBKEY_ADDR'], p.BASE58_PREFIXES['SCRIPT_ADDR'], p.BASE58_PREFIXES['SECRET_KEY'],
-                _s(p.BECH32_HRP), p.MAX_MONEY, p.PROOF_OF_WORK_LIMIT, p.SUBSIDY_HALVING_INTERVAL,
-                p.GENESIS_BLOCK.GetHash().hex()))
+                _s(p.BECH32_HRP), p.MAX_MONEY, p.PROOF_OF_WORK_LIMIT))
     finally:
         bitcoin.SelectParams(saved)
     return ('-- GENERATED from the working tree by harness/tables/chain.py on every run; do not edit.\n'
